@@ -19,6 +19,7 @@ CONSTANTS N,        \* number of addons
           SubB,     \* behaviours of the session / region subscribers
           RlvB,     \* behaviours of the RLV command hook (handle_rlv_command)
           Kinds     \* "plain" | "cmdchat" (viewer chat on the proxy's command channel) | "rlv" (owner-say "@cmd=param")
+                    \* | "badbody" (valid header, body that cannot be parsed: travels like a plain message, untouched)
 
 VARIABLES cfg,      \* [dir, rel, kind, pkt, udp, sess, reg]
           pc,       \* <<"pkt", i>> | <<"sess">> | <<"reg">> | <<"udp", i>> | <<"tail">> | <<"done">>
@@ -186,7 +187,7 @@ Isolation == Done =>
     /\ \A i \in 1..N : (\A j \in 1..(i - 1) : cfg.pkt[j] # "truthy") => <<"pkt", i>> \in invoked
     /\ (~PktClaimed /\ cfg.kind = "rlv") =>
           \A i \in 1..N : (\A j \in 1..(i - 1) : cfg.rlv[j] # "truthy") => <<"rlv", i>> \in invoked
-    /\ (~PktClaimed /\ cfg.kind = "plain") =>
+    /\ (~PktClaimed /\ cfg.kind \in {"plain", "badbody"}) =>
           \A i \in 1..N : (\A j \in 1..(i - 1) : ~Ops(cfg.udp[j]).ret) => <<"udp", i>> \in invoked
 Bookkeeping == (Done /\ ~PktClaimed) => logged
 NothingPending == Done => own # "queued"
